@@ -9,7 +9,7 @@ use crate::raw;
 use crate::ast;
 use crate::diagnostic::Emitter;
 use crate::error::{GatherErrorIteratorExt, ErrorReported};
-use crate::pos::{Sp};
+use crate::pos::{Sp, Span};
 use crate::resolve::{DefId};
 use crate::ident::{Ident};
 use crate::context::{self, CompilerContext};
@@ -479,6 +479,22 @@ impl ArgEncodingState {
     }}
 }
 
+/// Checks that an integer fits in an argument that is `size` bytes wide.
+///
+/// Anything from the smallest signed to the largest unsigned value of that width is accepted
+/// (so that both `-1` and `0xFFFF` can be written for a word); a value that needs more bits is an
+/// error, rather than being silently truncated to a different value.
+fn fit_int_arg(emitter: &impl Emitter, span: Span, value: i32, size: u32) -> Result<i32, ErrorReported> {
+    let (min, max) = (-(1i64 << (8 * size - 1)), (1i64 << (8 * size)) - 1);
+    if (value as i64) < min || (value as i64) > max {
+        return Err(emitter.emit(error!(
+            message("integer does not fit in argument"),
+            primary(span, "{value} does not fit in {size} byte(s) ({min} to {max})"),
+        )));
+    }
+    Ok(value)
+}
+
 /// Implements the encoding of argument values into byte blobs according to an instruction's ABI.
 fn encode_args(
     state: &mut ArgEncodingState,
@@ -534,7 +550,7 @@ fn encode_args(
 
             if extra_arg.is_none() {
                 assert!(!first_normal_arg.expect_raw().is_reg, "checked above");
-                extra_arg = Some(first_normal_arg.expect_raw().expect_int() as _);
+                extra_arg = Some(fit_int_arg(emitter, first_normal_arg.span, first_normal_arg.expect_raw().expect_int(), 2)? as _);
             } else {
                 // Explicit @arg0, but also drawn from args.
                 // To keep the type checker's job simpler, we took an argument from the argument list anyways,
@@ -611,19 +627,19 @@ fn encode_args(
             => args_blob.write_i32(arg.expect_raw().expect_int()).expect("Cursor<Vec> failed?!"),
 
             | ArgEncoding::Integer { size: 2, format: ast::IntFormat { signed: true, radix: _ }, .. }
-            => args_blob.write_i16(arg.expect_raw().expect_int() as _).expect("Cursor<Vec> failed?!"),
+            => args_blob.write_i16(fit_int_arg(emitter, arg.span, arg.expect_raw().expect_int(), 2)? as _).expect("Cursor<Vec> failed?!"),
 
             | ArgEncoding::Integer { size: 1, format: ast::IntFormat { signed: true, radix: _ }, .. }
-            => args_blob.write_i8(arg.expect_raw().expect_int() as _).expect("Cursor<Vec> failed?!"),
+            => args_blob.write_i8(fit_int_arg(emitter, arg.span, arg.expect_raw().expect_int(), 1)? as _).expect("Cursor<Vec> failed?!"),
 
             | ArgEncoding::Integer { size: 4, format: ast::IntFormat { signed: false, radix: _ }, .. }
             => args_blob.write_u32(arg.expect_raw().expect_int() as _).expect("Cursor<Vec> failed?!"),
 
             | ArgEncoding::Integer { size: 2, format: ast::IntFormat { signed: false, radix: _ }, .. }
-            => args_blob.write_u16(arg.expect_raw().expect_int() as _).expect("Cursor<Vec> failed?!"),
+            => args_blob.write_u16(fit_int_arg(emitter, arg.span, arg.expect_raw().expect_int(), 2)? as _).expect("Cursor<Vec> failed?!"),
 
             | ArgEncoding::Integer { size: 1, format: ast::IntFormat { signed: false, radix: _ }, .. }
-            => args_blob.write_u8(arg.expect_raw().expect_int() as _).expect("Cursor<Vec> failed?!"),
+            => args_blob.write_u8(fit_int_arg(emitter, arg.span, arg.expect_raw().expect_int(), 1)? as _).expect("Cursor<Vec> failed?!"),
 
             | ArgEncoding::Integer { size, .. }
             => panic!("unexpected integer size: {size}"),
